@@ -536,6 +536,16 @@ func runCheck(id, tier string) int {
 		}
 		for c, w := range witnessCases {
 			o := c.out
+			// the native side runs real goroutines against wall-clock sleeps: a witness that does not reproduce is
+			// replayed again (alone) before it counts as a disagreement between engine and implementation
+			for try := 0; try < 2 && (o.Desync != "" || o.Timeout || o.Failed != "" || o.Panic != ""); try++ {
+				one := []*replayCase{{pkgdir: c.pkgdir, harness: c.harness, script: c.script, params: c.params}}
+				if err := runNative(one, sh, pathMap, tmp, allHarness); err != nil {
+					break
+				}
+				o = one[0].out
+				c.out = o
+			}
 			if o.Desync != "" || o.Timeout || o.Failed != "" || o.Panic != "" {
 				if hasEngineOnly(w.Script, "maporder", "sched", "preempt", "select", "pool") {
 					continue // order-dependent path: native run may legitimately take another path
